@@ -13,7 +13,7 @@ Not decided: arithmetic after validation, the clamped count of reads crossing th
 end, comparison strictness of the bounds test (value level).
 """
 from ..interp import Program, POLL_NAMES, short
-from ..guard import Deps, checks, first_effect_blocks
+from ..guard import Deps, checks, first_effect_blocks, passes_check
 from ..facts import AnalysisError
 from .. import api
 
@@ -143,7 +143,7 @@ def run(ctx, rep):
         vname = short(b.path)
         for cat, pred in cats.items():
             hits = [c for c in cks if pred(c['deps'], roots)]
-            dom = [c for c in hits if all(b.dominates(c['bi'], p) for p in polls)]
+            dom = [c for c in hits if all(b.dominates(c['bi'], p) or passes_check(b, c, p) for p in polls)]
             ok = bool(dom)
             rep.ob('C13.1', '%s: %s' % (name, cat), ok,
                    '%d matching check(s) in %s, %d dominate all %d awaits' % (len(hits), vname, len(dom), len(polls)))
@@ -324,7 +324,7 @@ def vs(d):
 
 
 def bs(d):
-    return ('field', 'block_size_shift') in d
+    return ('field', 'block_size_shift') in d or any(x[0] == 'fn' and x[1].endswith(('Qcow2Info::block_size', 'get_bs_bits')) for x in d)
 
 
 def ro(d):
